@@ -598,6 +598,27 @@ func (e *Engine) evalCond(fi *fnInfo, v ssa.Value, pol bool, w *world, depth int
 					return "", v, pol, t == pol, true, true, false
 				}
 			}
+			// refinement: on an edge where `V == nil` holds, every tracked phi
+			// whose current value is V is known to be nil from here on
+			if w != nil && (x.Op == token.EQL || x.Op == token.NEQ) && pol == (x.Op == token.EQL) {
+				var nilC *ssa.Const
+				var other ssa.Value
+				if oky && ky.Value == nil && !okx {
+					nilC, other = ky, lx
+				} else if okx && kx.Value == nil && !oky {
+					nilC, other = kx, ly
+				}
+				if nilC != nil && isNilable(other.Type()) {
+					for p, cur := range w.phis {
+						if cur == other {
+							w.phis[p] = nilC
+						}
+					}
+					if p, ok := other.(*ssa.Phi); ok && fi.tracked[p] {
+						w.phis[p] = nilC
+					}
+				}
+			}
 			s := e.cmpStr(x.Op, lx, ly, pol)
 			return s, v, pol, true, false, fi.once(lx) && fi.once(ly), fi.factRoots[lx] || fi.factRoots[ly] || fi.factRoots[x.X] || fi.factRoots[x.Y]
 		}
@@ -722,6 +743,14 @@ func isSticky(sticky []string, l string) bool {
 		if s == l {
 			return true
 		}
+	}
+	return false
+}
+
+func isNilable(t types.Type) bool {
+	switch t.Underlying().(type) {
+	case *types.Pointer, *types.Interface, *types.Map, *types.Chan, *types.Slice, *types.Signature:
+		return true
 	}
 	return false
 }
